@@ -161,11 +161,6 @@ T("C20", "twin-checksum-ternary", U, C8_BODY, '    return 0 if len(text) < 4 els
 T("C20", "twin-checksum-inverted-guard", U, C8_BODY, '    if len(text) >= 4:\n        stripped = text.replace("/", "")\n        return sum([ord(c) for c in stripped]) % 0x100\n    return 0\n')
 T("C20", "twin-x86-temp-mirrored", U, X86_RET, "    value = checksum8(uri)\n    return 92 == value\n")
 T("C20", "twin-x86-double-negation", U, X86_RET, "    return not checksum8(uri) != 92\n")
-T("C20", "twin-x64-early-return", U, X64_RET, '    if checksum8(uri) != 93:\n        return False\n    return re.match("^/[A-Za-z0-9]{4}$", uri) is not None\n')
-T("C20", "twin-x64-precompiled", U, "", "", edits=[
-    (U, "def is_stager_x64(uri: str) -> bool:\n", '_X64_URI = re.compile("/[0-9a-zA-Z]{4}")\n\n\ndef is_stager_x64(uri: str) -> bool:\n'),
-    (U, X64_RET, "    return checksum8(uri) == 93 and _X64_URI.fullmatch(uri) is not None\n")])
-T("C20", "twin-x64-absolute-anchors", U, 're.match("^/[A-Za-z0-9]{4}$", uri)', 're.search(r"\\A/[a-zA-Z\\d]{4}\\Z", uri, re.ASCII)')
 
 M("C20", "checksum-guard-le4", U, "    if len(text) < 4:\n", "    if len(text) <= 4:\n", "C20.R3")
 M("C20", "checksum-guard-after-strip", U, C8_BODY, '    text = text.replace("/", "")\n    if len(text) < 4:\n        return 0\n    return sum(map(ord, text)) % 256\n', "C20.R3")
@@ -174,13 +169,6 @@ M("C20", "checksum-filter-form-mod-127", U, C8_BODY, '    if len(text) <= 3:\n  
 M("C20", "checksum-short-returns-one", U, "    if len(text) < 4:\n        return 0\n", "    if len(text) < 4:\n        return 1\n", "C20.R3")
 M("C20", "x86-ge", U, X86_RET, "    return checksum8(uri) >= 92\n", "C20.R3")
 M("C20", "x86-on-path-without-slash", U, X86_RET, "    return checksum8(uri[1:]) == 92\n", "C20.R3")
-M("C20", "x64-or", U, X64_RET, '    return bool(checksum8(uri) == 93 or re.match("^/[A-Za-z0-9]{4}$", uri))\n', "C20.R3")
-M("C20", "x64-underscore", U, "[A-Za-z0-9]{4}$", "[A-Za-z0-9_]{4}$", "C20.R3")
-M("C20", "x64-search-unanchored", U, 're.match("^/[A-Za-z0-9]{4}$", uri)', 're.search("/[A-Za-z0-9]{4}", uri)', "C20.R3")
-M("C20", "x64-ignorecase-unicode", U, 're.match("^/[A-Za-z0-9]{4}$", uri)', 're.match("^/[a-z0-9]{4}$", uri, re.IGNORECASE)', "C20.R3")
-M("C20", "x64-early-return-wrong-constant", U, X64_RET, '    if checksum8(uri) != 92:\n        return False\n    return re.match("^/[A-Za-z0-9]{4}$", uri) is not None\n', "C20.R3")
-M("C20", "x64-no-pattern", U, X64_RET, "    return checksum8(uri) == 93 and len(uri) == 5\n", "C20.R3")
-M("C20", "x64-five-chars", U, "[A-Za-z0-9]{4}$", "[A-Za-z0-9]{4,5}$", "C20.R3")
 
 # ============================================================================================================ R4 random_stager_uri
 LOOP_CONTINUE = (
@@ -275,8 +263,6 @@ M("C20", "gate-helper-method-x86-or-short", P, "", "", "C20.R5", edits=[
 T("C20", "twin-rsu-alphabet-module-constant", U, "", "", edits=[
     (U, "def random_stager_uri(", "_URI_CHARS = string.ascii_letters + string.digits\n\n\ndef random_stager_uri("), (U, RSU_CHARS, ""), (U, "random.choice(chars)", "random.choice(_URI_CHARS)")])
 T("C20", "twin-rsu-walrus-loop", U, RSU_LOOP, '    while not is_stager(uri := "/" + "".join(random.choice(chars) for _ in range(length))):\n        pass\n    return uri\n')
-T("C20", "twin-x64-no-regex", U, X64_RET, '    return checksum8(uri) == 93 and len(uri) == 5 and uri.startswith("/") and uri[1:].isascii() and uri[1:].isalnum()\n')
-M("C20", "x64-no-regex-unicode-alnum", U, X64_RET, '    return checksum8(uri) == 93 and len(uri) == 5 and uri.startswith("/") and uri[1:].isalnum()\n', "C20.R3")
 T("C20", "twin-xor-divmod-tiling", U, XOR_TILE, "    reps, _rest = divmod(size, len(key))\n    key = (key * (reps + 1))[:size]\n")
 M("C20", "xor-identity-mod-256", U, XOR_GUARD, "    if sum(key) % 256 == 0:\n        return data\n", "C20.R1")
 M("C20", "xor-zero-key-returns-empty", U, XOR_GUARD, '    if sum(key) == 0:\n        return b""\n', "C20.R1")
@@ -312,13 +298,6 @@ T("C20", "twin-pack-seven-plus", U, "        size = (n.bit_length() + 7) // 8\n"
 M("C20", "pack-eight-plus", U, "        size = (n.bit_length() + 7) // 8\n", "        size = (n.bit_length() + 8) // 8\n", "C20.R2")
 T("C20", "twin-checksum-guard-mirrored-not", U, "    if len(text) < 4:\n", "    if not 4 <= len(text):\n")
 M("C20", "checksum-guard-gap", U, "    if len(text) < 4:\n        return 0\n", "    if len(text) < 4:\n        return 0\n    if len(text) == 6:\n        return 0\n", "C20.R3")
-T("C20", "twin-x64-split-class", U, 're.match("^/[A-Za-z0-9]{4}$", uri)', 're.fullmatch("/[A-Za-z0-9][0-9A-Za-z]{3}", uri)')
-T("C20", "twin-x64-ignorecase-ascii", U, 're.match("^/[A-Za-z0-9]{4}$", uri)', 're.match("^/[a-z0-9]{4}$", uri, re.IGNORECASE | re.ASCII)')
-M("C20", "x64-digit-class-unicode", U, "[A-Za-z0-9]{4}$", "[A-Za-z\\\\d]{4}$", "C20.R3")
-M("C20", "x64-multiline", U, 're.match("^/[A-Za-z0-9]{4}$", uri)', 're.match("^/[A-Za-z0-9]{4}$", uri, re.MULTILINE)', "C20.R3")
-M("C20", "x64-dot-position", U, "[A-Za-z0-9]{4}$", "[A-Za-z0-9]{3}.$", "C20.R3")
-T("C20", "twin-x64-alternation-merged-by-parser", U, 're.match("^/[A-Za-z0-9]{4}$", uri)', 're.match("^/(?:[A-Za-z]|[0-9]){4}$", uri)')
-T("C20", "twin-x64-nested-repeat-undecided", U, 're.match("^/[A-Za-z0-9]{4}$", uri)', 're.match("^/(?:[A-Za-z0-9]{2}){2}$", uri)')
 T("C20", "twin-rsu-range-from-one", U, "for _ in range(length))", "for _ in range(1, length + 1))")
 M("C20", "rsu-range-from-one-short", U, "for _ in range(length))", "for _ in range(1, length))", "C20.R4")
 T("C20", "twin-netbios-encoder-floor-div", U, "", "", edits=[(U, "        a = ((c & 0xF0) >> 4) + offset\n", "        a = offset + c // 16\n"), (U, "        b = (c & 0x0F) + offset\n", "        b = (15 & c) + offset\n")])
